@@ -6,7 +6,7 @@ DRIVER = "fvd_c06"
 DRIVER_TAKES_ANSWER = True
 LEAN_TARGETS = ["FalconProofs.Props.C06", "FalconProofs.Props.C06Asm", "fvd_c06"]
 PROPS_MODULE = "FalconProofs.Props.C06"
-LEVEL = "translation_validation"
+LEVEL = "proof"
 RULE = ("random machine-code programs from built-in mini-assemblers (MIPS/MIPSEL: addiu addu lw sw beq bne blez bgtz bltz bgez b j jr; "
         "x86/amd64: mov add inc cmp load/store, 1..5-byte nops, jcc/jmp in short and long forms, ret), 3..40 instructions so that "
         "code spans one or several 64-byte translation windows at varying alignment, forward/backward branches into the middle of "
